@@ -57,3 +57,94 @@ Fixpoint psteps (s : pstate) (ls : list plabel) : option pstate :=
   | [] => Some s
   | l :: r => match pstep s l with Some s' => psteps s' r | None => None end
   end.
+
+(* ------------------------------------------------------------------ evaluations through the pool *)
+Open Scope nat_scope.
+(* ProxyResolverPool.FindProxyForURL is, per caller: get a resolver; evaluate; put it back.  A resolver (one JavaScript
+   VM) is not safe for concurrent use: an evaluation first loads its arguments into the VM's working storage and then
+   runs the script on whatever that storage holds.  Callers interleave arbitrarily between these steps.
+   [put_late] is the order the source has (Tables.pool_put_after_eval): put after the evaluation (true) or before it. *)
+Record xstate := {
+  xp : pstate;
+  xpc : list (nat * nat);          (* caller -> program counter: absent/0 idle, 1 has a resolver, 2 arguments loaded, 3 evaluated *)
+  xhandle : list (nat * nat);      (* caller -> the resolver it works with *)
+  xarg : list (nat * nat);         (* caller -> the argument of its current call *)
+  xscratch : list (nat * nat);     (* resolver -> what its working storage holds *)
+  xanswers : list (nat * nat * nat)  (* caller, argument, answer *)
+}.
+Definition xinit : xstate :=
+  {| xp := pinit; xpc := []; xhandle := []; xarg := []; xscratch := []; xanswers := [] |}.
+
+Inductive xlabel :=
+| XGet (c : nat)
+| XLoad (c arg : nat)
+| XRun (c : nat)
+| XPut (c : nat)
+| XDrop.
+
+Fixpoint assoc_nat (k : nat) (l : list (nat * nat)) : option nat :=
+  match l with
+  | [] => None
+  | (k', v) :: r => if Nat.eqb k k' then Some v else assoc_nat k r
+  end.
+Definition set_nat (k v : nat) (l : list (nat * nat)) : list (nat * nat) := (k, v) :: l.
+Definition pc_of (s : xstate) (c : nat) : nat := match assoc_nat c (xpc s) with Some n => n | None => 0 end.
+
+Section XStep.
+  Variable f : nat -> nat.          (* the script: its result is a function of the arguments *)
+  Variable put_late : bool.
+
+  Definition xstep (s : xstate) (l : xlabel) : option xstate :=
+    match l with
+    | XGet c =>
+        if Nat.eqb (pc_of s c) 0 then
+          match pstep (xp s) (Get c) with
+          | Some p' => match lookup_caller c (held p') with
+                       | Some v => Some {| xp := p'; xpc := set_nat c 1 (xpc s); xhandle := set_nat c v (xhandle s);
+                                           xarg := xarg s; xscratch := xscratch s; xanswers := xanswers s |}
+                       | None => None
+                       end
+          | None => None
+          end
+        else None
+    | XLoad c a =>
+        (* with the late put the caller still holds the resolver; with the early put it has given it back already *)
+        if Nat.eqb (pc_of s c) (if put_late then 1 else 4) then
+          match assoc_nat c (xhandle s) with
+          | Some v => Some {| xp := xp s; xpc := set_nat c (if put_late then 2 else 5) (xpc s); xhandle := xhandle s;
+                              xarg := set_nat c a (xarg s); xscratch := set_nat v a (xscratch s); xanswers := xanswers s |}
+          | None => None
+          end
+        else None
+    | XRun c =>
+        if Nat.eqb (pc_of s c) (if put_late then 2 else 5) then
+          match assoc_nat c (xhandle s), assoc_nat c (xarg s) with
+          | Some v, Some a =>
+              let held_value := match assoc_nat v (xscratch s) with Some x => x | None => 0 end in
+              Some {| xp := xp s; xpc := set_nat c (if put_late then 3 else 0) (xpc s); xhandle := xhandle s;
+                      xarg := xarg s; xscratch := xscratch s; xanswers := (c, a, f held_value) :: xanswers s |}
+          | _, _ => None
+          end
+        else None
+    | XPut c =>
+        if Nat.eqb (pc_of s c) (if put_late then 3 else 1) then
+          match pstep (xp s) (Put c) with
+          | Some p' => Some {| xp := p'; xpc := set_nat c (if put_late then 0 else 4) (xpc s); xhandle := xhandle s;
+                               xarg := xarg s; xscratch := xscratch s; xanswers := xanswers s |}
+          | None => None
+          end
+        else None
+    | XDrop =>
+        match pstep (xp s) Drop with
+        | Some p' => Some {| xp := p'; xpc := xpc s; xhandle := xhandle s; xarg := xarg s;
+                             xscratch := xscratch s; xanswers := xanswers s |}
+        | None => None
+        end
+    end.
+
+  Fixpoint xsteps (s : xstate) (ls : list xlabel) : option xstate :=
+    match ls with
+    | [] => Some s
+    | l :: r => match xstep s l with Some s' => xsteps s' r | None => None end
+    end.
+End XStep.
